@@ -3,7 +3,7 @@ from vlib.core import Case, hx
 
 ID = "C03"
 RULE = ("op hdk.derive <seed> <path>: seeds of length 0,1,16,32,64,65,128 and random; depths 1..10 and long paths (up to 513 components, thorough 1000: around 32/64/128/256/512); indices from {0,1,2^31-1,random} x "
-        "{hardened, normal}; mixed sequences; normal below hardened; BIP-32 test vectors 1 and 2; non-trivial = distinct (seed, path); "
+        "{hardened, normal}; mixed sequences; normal below hardened; BIP-32 test vectors 1 and 2; sequences of 2..6 derivations in one thread over a few seeds and textually / structurally related paths (op seq); non-trivial = distinct (seed, path); "
         "judge = Spec.Bip32 (CKDpriv from the standard) with independent HMAC-SHA512 / secp256k1")
 EXHAUSTIVE_SWEEPS = {"quick": [], "thorough": []}
 
@@ -27,6 +27,18 @@ def gen(rng, tier):
             v = rng.choice([0, 1, 2 ** 31 - 1, rng.randrange(2 ** 31), rng.randrange(256), 2 ** 24, 255, 256, 65536])
             comps.append("%d%s" % (v, "'" if rng.random() < 0.5 else ""))
         cases.append(Case("hdk.derive %s %s" % (hx(s), hx("m/" + "/".join(comps))), tags=("random", "depth:%d" % depth)))
+    # sequences in one thread (op seq): a few seeds, and paths that are close to each other as texts and as trees — the same
+    # numbers with and without the hardened mark, indices whose digits are a prefix of another's, siblings, descendants,
+    # ancestors, the same path twice — each derivation depends on (seed, path) only
+    from vlib.core import seq_line
+    fam = ["m/0", "m/0'", "m/0/7", "m/0'/1", "m/0'/1/2'", "m/0'/1/2'/2", "m/0'/1/2'/2/1", "m/0'/1/2'/2/1/5", "m/0'/1/2'/2/1000000000", "m/4/0", "m/44'/60'/0'/0/0", "m/44'/60'/0'/0/1",
+           "m/44'/60'/0'/0/10", "m/44/60/0/0/0", "m/44'/60'/0'/0", "m/44'/60'/0'", "m/1", "m/1'", "m/10", "m/100'", "m/1/0", "m/10/0", "m/2147483647", "m/2147483647'", "m/214748364/7"]
+    sd = [rb(32), rb(64), bytes.fromhex("000102030405060708090a0b0c0d0e0f")]
+    for _ in range(120 if tier == "thorough" else 30):
+        k = rng.randint(2, 6)
+        same = rng.random() < 0.7
+        s0 = rng.choice(sd)
+        cases.append(Case(seq_line(["hdk.derive %s %s" % (hx(s0 if same else rng.choice(sd)), hx(rng.choice(fam))) for _ in range(k)]), tags=("sequence",)))
     # long paths: BIP-32 puts no bound on the depth of a path handed to the derivation (the one-byte depth field belongs
     # to the serialised extended key, which this tool does not produce); every component must still be applied
     deep = [11, 16, 31, 32, 33, 63, 64, 65, 100, 127, 128, 129, 200, 254, 255, 256, 257, 258, 300, 511, 512, 513, 1000] if tier == "thorough" else \
